@@ -53,6 +53,7 @@ func GenerateIndexing(t *rapid.T, kind string, use func(string) bool) *Program {
 			g.p.Funcs = append(g.p.Funcs, pf)
 		}
 	}
+	var mayFail *Func
 	f := &Func{Name: "s0"}
 	arr := "arr"
 	curLen := n // model of the current length (dyn arrays grow)
@@ -120,8 +121,8 @@ func GenerateIndexing(t *rapid.T, kind string, use func(string) bool) *Program {
 	nst := g.intRange(3, 10, "nst")
 	for k := 0; k < nst; k++ {
 		lab := fmt.Sprintf("st%d", k)
-		choice := g.intRange(0, 11, lab)
-		if kind == "fixed" && (choice == 6 || choice == 7 || choice == 8) && !g.chance(6, lab+"_nonconst") {
+		choice := g.intRange(0, 14, lab)
+		if kind == "fixed" && (choice == 6 || choice == 7 || choice == 8 || choice >= 12) && !g.chance(6, lab+"_nonconst") {
 			choice = g.intRange(0, 5, lab+"_alt")
 		}
 		switch choice {
@@ -173,6 +174,28 @@ func GenerateIndexing(t *rapid.T, kind string, use func(string) bool) *Program {
 				f.Body = append(f.Body, &Print{Args: []Expr{&Index{T: et, X: &Var{T: at, Name: c}, I: &Lit{T: i32, I: big.NewInt(0)}}}})
 				g.use("index.copy")
 			}
+		case 12, 13: // the index variable is assigned by a function literal (called now, later or never)
+			fn := g.fresh("set")
+			ft := &Type{K: KFn, Params: []*Type{i32}, Ret: TVoid}
+			f.Body = append(f.Body, &Let{Name: fn, T: ft, Infer: true, Init: &FnLit{T: ft, Params: []string{"n"}, Body: []Stmt{&Assign{LHS: &Var{T: i32, Name: "vi"}, Op: "=", RHS: &Var{T: i32, Name: "n"}}}}})
+			if choice == 12 {
+				f.Body = append(f.Body, &ExprStmt{X: &Call{T: TVoid, Fn: fn, Args: []Expr{&Lit{T: i32, I: big.NewInt(idxLit(lab))}}}})
+				g.use("index.assigned_by_closure_call")
+			} else {
+				g.use("index.assigned_by_uncalled_closure")
+			}
+		case 14: // the index variable is assigned in a catch handler that runs or does not run
+			if mayFail == nil {
+				str := TStr
+				mayFail = &Func{Name: "mayfail", Ret: i32, ErrT: str, Params: []Param{{Name: "x", T: i32}}}
+				mayFail.Body = []Stmt{&If{Cond: &Bin{T: TBool, Op: ">", L: &Var{T: i32, Name: "x"}, R: &Lit{T: i32, I: big.NewInt(0)}}, Then: []Stmt{&ReturnErr{X: &Lit{T: TStr, S: "e"}}}}, &Return{X: &Var{T: i32, Name: "x"}}}
+				g.p.Funcs = append(g.p.Funcs, mayFail)
+			}
+			tmp := g.fresh("rc")
+			arg := int64(g.intRange(0, 1, lab+"_fails"))
+			f.Body = append(f.Body, &Let{Name: tmp, T: i32, Init: &CatchCall{T: i32, Call: &Call{T: i32, Fn: "mayfail", Args: []Expr{&Lit{T: i32, I: big.NewInt(arg)}}}, ErrVar: g.fresh("er"),
+				Handler: []Stmt{&Assign{LHS: &Var{T: i32, Name: "vi"}, Op: "=", RHS: &Lit{T: i32, I: big.NewInt(idxLit(lab))}}}, Fallback: &Lit{T: i32, I: big.NewInt(0)}}})
+			g.use("index.assigned_in_catch_handler")
 		case 10, 11: // dynamic arrays grow
 			if kind == "dyn" && g.chance(3, lab+"_pushidx") && g.use("dyn.index_expr_appends") {
 				fn := rapid.SampledFrom([]string{"pushpos", "pushneg"}).Draw(t, lab+"_pushfn")
